@@ -12,7 +12,7 @@ use circular_buffer::CircularBuffer;
 use std::collections::VecDeque;
 use std::fmt::Write as _;
 
-pub const IO_NS: [usize; 9] = [0, 1, 2, 3, 4, 5, 8, 16, 64];
+pub const IO_NS: [usize; 10] = [0, 1, 2, 3, 4, 5, 8, 16, 64, 200];
 
 pub fn run(script: &Script, keep_trace: bool) -> Outcome {
     match script.n {
@@ -25,6 +25,7 @@ pub fn run(script: &Script, keep_trace: bool) -> Outcome {
         8 => run_n::<8>(script, keep_trace),
         16 => run_n::<16>(script, keep_trace),
         64 => run_n::<64>(script, keep_trace),
+        200 => run_n::<200>(script, keep_trace),
         n => crate::harness_fail(format!("capacity {n} is not compiled for the io scenario")),
     }
 }
@@ -489,6 +490,12 @@ impl<const N: usize> IoEx<N> {
         let mut may_alloc = false;
         let mut argclass = 0u64;
         let mut generic = false;
+        // identity of a byte = its value, when all buffered values are distinct (stamps are)
+        let pre_addr: Vec<(u8, usize)> = self.buf.iter().map(|b| (*b, b as *const u8 as usize)).collect();
+        let distinct = {
+            let mut seen = [false; 256];
+            pre_addr.iter().all(|(v, _)| !std::mem::replace(&mut seen[*v as usize], true))
+        };
         match st.op {
             Op::IoWrite | Op::IoWriteAll | Op::IoWriteFmt | Op::IoExtendRef | Op::IoLayout => {
                 let k = st.a;
@@ -546,9 +553,38 @@ impl<const N: usize> IoEx<N> {
                         }
                     }
                     _ => {
-                        let r = self.call(|b| b.extend(data.iter()));
-                        if r.is_some() {
-                            self.model_write(&data);
+                        if st.b == 0 {
+                            let r = self.call(|b| b.extend(data.iter()));
+                            if r.is_some() {
+                                self.model_write(&data);
+                            }
+                        } else {
+                            // Extend<&u8> from an iterator that panics at its k-th `next` (C06)
+                            let it = RefIter { data: &data, pos: 0, panic_at: st.b, exact: st.c % 2 == 0 };
+                            let old = self.model_vec();
+                            let b: &mut CircularBuffer<N, u8> = &mut self.buf;
+                            let r = window(|| b.extend(it));
+                            let _ = crate::alloc::take_op_allocs();
+                            match r {
+                                Ok(()) => self.model_write(&data),
+                                Err(PanicKind::Injected(_)) => {
+                                    self.stats.fault_fired[crate::elem::FaultKind::Iter as usize] += 1;
+                                    let yielded = (st.b - 1).min(data.len());
+                                    let mut all = old.clone();
+                                    all.extend_from_slice(&data[..yielded]);
+                                    let got: Vec<u8> = self.buf.iter().copied().collect();
+                                    let ok = self.buf.len() == got.len()
+                                        && got.len() <= N
+                                        && (got.is_empty() || all.windows(got.len()).any(|w| w == &got[..]));
+                                    if !ok {
+                                        self.fail(cls::USER_FAULT, format!("after the iterator given to extend(&u8) panicked at item {}: contents {:?} (len {}) are not a run of the old contents {:?} followed by the {} items yielded", st.b, got, self.buf.len(), old, yielded));
+                                    }
+                                    self.produced -= (data.len() - yielded) as u64;
+                                    self.model = got.into_iter().collect();
+                                }
+                                Err(PanicKind::Other(m)) => self.fail(own | cls::PANIC_SPEC, format!("extend(&u8) panicked: {m}")),
+                            }
+                            self.stats.fault_configured[crate::elem::FaultKind::Iter as usize] += 1;
                         }
                     }
                 }
@@ -954,6 +990,29 @@ impl<const N: usize> IoEx<N> {
                 self.fail(own | cls::CONTENTS, format!("after {}: contents {:?} (len {}) != byte model {:?}", st.op.name(), got, self.buf.len(), want));
             }
         }
+        // ---- relocation (C20) for the generic operations on bytes
+        if self.fail.is_none() && generic && distinct && !self.panicked {
+            let bound: Option<usize> = match st.op {
+                Op::PushBack | Op::PushFront | Op::TryPushBack | Op::TryPushFront | Op::PopBack | Op::PopFront | Op::Swap | Op::SwapRemoveBack | Op::SwapRemoveFront
+                | Op::TruncateBack | Op::TruncateFront | Op::Clear => Some(2),
+                Op::Remove => Some(pre_len.saturating_sub(st.a)),
+                Op::Drain => st.rs.resolve(pre_len).ok().map(|(_, j)| pre_len - j),
+                _ => None,
+            };
+            if let Some(bound) = bound {
+                let post: Vec<(u8, usize)> = self.buf.iter().map(|b| (*b, b as *const u8 as usize)).collect();
+                let post_distinct = {
+                    let mut seen = [false; 256];
+                    post.iter().all(|(v, _)| !std::mem::replace(&mut seen[*v as usize], true))
+                };
+                if post_distinct {
+                    let moved = pre_addr.iter().filter(|(v, a)| post.iter().any(|(pv, pa)| pv == v && pa != a)).count();
+                    if moved > bound {
+                        self.fail(cls::RELOC, format!("{} on a byte buffer relocated {} surviving elements (bound {}), layout before: start={} size={} N={}", st.op.name(), moved, bound, pre_layout.0, pre_layout.1, N));
+                    }
+                }
+            }
+        }
         // ---- Eq / Ord / Hash / Debug depend only on the contents (C13, C04): compare with a
         // freshly built buffer of the same capacity holding the same bytes (front at slot 0)
         if self.fail.is_none() {
@@ -1258,6 +1317,34 @@ impl<const N: usize> IoEx<N> {
     }
 }
 
+/// Harness-owned by-reference iterator (seam S2) with an exact or absent size hint; panics at
+/// its `panic_at`-th call of `next`.
+struct RefIter<'a> {
+    data: &'a [u8],
+    pos: usize,
+    panic_at: usize,
+    exact: bool,
+}
+impl<'a> Iterator for RefIter<'a> {
+    type Item = &'a u8;
+    fn next(&mut self) -> Option<&'a u8> {
+        if self.pos + 1 == self.panic_at {
+            std::panic::resume_unwind(Box::new(crate::elem::Injected(crate::elem::FaultKind::Iter)));
+        }
+        let r = self.data.get(self.pos);
+        self.pos += 1;
+        r
+    }
+    fn size_hint(&self) -> (usize, Option<usize>) {
+        let rem = self.data.len().saturating_sub(self.pos);
+        if self.exact {
+            (rem, Some(rem))
+        } else {
+            (0, None)
+        }
+    }
+}
+
 fn lencls(k: usize, reference: usize, n: usize) -> u64 {
     if k == 0 {
         0
@@ -1391,6 +1478,11 @@ pub fn gen_io(seed: u64, prop: &str, run: u64) -> Script {
         match op {
             Op::IoWrite | Op::IoWriteAll | Op::IoWriteFmt | Op::IoExtendRef => {
                 st.a = io_len(&mut rng, free, n);
+                if op == Op::IoExtendRef && rng.below(3) == 0 {
+                    // the by-reference iterator panics at its k-th `next` (seam S2)
+                    st.b = 1 + rng.below(st.a as u64 + 1) as usize;
+                    st.c = rng.below(2) as usize;
+                }
                 len = (len + st.a).min(n);
             }
             Op::IoWriteVectored => {
@@ -1406,6 +1498,9 @@ pub fn gen_io(seed: u64, prop: &str, run: u64) -> Script {
             }
             Op::IoRead | Op::IoReadExact | Op::IoBytes | Op::IoConsume => {
                 st.a = io_len(&mut rng, len, n);
+                if op == Op::IoConsume && rng.below(8) == 0 {
+                    st.a = *rng.pick(&[usize::MAX, usize::MAX - 1, usize::MAX / 2 + 1]);
+                }
                 len = len.saturating_sub(st.a);
             }
             Op::IoTake => {
